@@ -507,6 +507,12 @@ void run_C08(void) {
           static const uint64_t CORE[][3] = {{1, 1, 1}, {2, 2, 2}, {3, 1, 2}, {1, 3, 0}, {2, 0, 3}, {0, 2, 1}, {4, 3, 4}};
           for (size_t c = 0; c < ARRAY_LEN(CORE); c++) one_case(op, 0, mt, native, N, CORE[c][0], CORE[c][1], CORE[c][2], (unsigned)c % 4, (unsigned)(c + 1) % 4, (unsigned)(c + 2) % 4, (int)(c & 1), 50);
         }
+        // every limb count 0..40 on one small ring
+        if (N == 4)
+          for (uint64_t sz = 5; sz <= 40; sz++) {
+            one_case(op, 0, mt, native, N, sz, sz, sz, (unsigned)sz % 4, (unsigned)(sz + 1) % 4, (unsigned)(sz + 2) % 4, (int)(sz & 1), 61);
+            if (sz % 3 == 0) one_case(op, 0, mt, native, N, sz, sz + 1, sz - 1, 0, 1, 2, 0, 62);
+          }
         // many limbs (loops over limbs that are unrolled or blocked change regime above the small box)
         if (N <= 64 || (th && N <= 1024)) {
           static const uint64_t BIGS[][3] = {{9, 8, 7}, {8, 9, 17}, {17, 3, 9}, {7, 16, 16}, {16, 16, 16}, {5, 12, 0}, {12, 0, 5}, {33, 32, 31}};
